@@ -114,7 +114,11 @@ pub fn ring_nf(r: &LineString<f64>, nf: Nf) -> Ring {
 
 /// the sorted multiset of all non-empty rings of a multipolygon in normal form (flat: no grouping)
 pub fn ring_set(mp: &MP, nf: Nf) -> Vec<Ring> {
-    let mut v: Vec<Ring> = mp_rings(mp).into_iter().map(|r| ring_nf(r, nf)).filter(|r| !r.is_empty()).collect();
+    let mut v: Vec<Ring> = mp_rings(mp)
+        .into_iter()
+        .map(|r| ring_nf(r, nf))
+        .filter(|r| !r.is_empty())
+        .collect();
     v.sort();
     v
 }
@@ -134,7 +138,11 @@ pub fn map_mp(mp: &MP, f: &dyn Fn(P) -> P) -> MP {
                 .collect(),
         )
     };
-    MultiPolygon(mp.0.iter().map(|p| Polygon::new(cv(p.exterior()), p.interiors().iter().map(cv).collect())).collect())
+    MultiPolygon(
+        mp.0.iter()
+            .map(|p| Polygon::new(cv(p.exterior()), p.interiors().iter().map(cv).collect()))
+            .collect(),
+    )
 }
 
 /// the 8 symmetries of the axes: index 0..8
@@ -152,5 +160,13 @@ pub fn symmetry(k: usize, p: P) -> P {
         _ => unreachable!(),
     }
 }
-pub const SYM_NAMES: [&str; 8] =
-    ["identity", "mirror-x", "mirror-y", "rotate-180", "transpose", "rotate-90", "rotate-270", "anti-transpose"];
+pub const SYM_NAMES: [&str; 8] = [
+    "identity",
+    "mirror-x",
+    "mirror-y",
+    "rotate-180",
+    "transpose",
+    "rotate-90",
+    "rotate-270",
+    "anti-transpose",
+];
